@@ -8,7 +8,7 @@ import z3
 from .contracts import REGISTRY
 from .core import State, fresh_name
 from .expr import KIND_OF_TYPE, OK, RAISE, ExprMixin, Rec
-from .universe import LISTLIKE
+from .universe import LISTLIKE, SINGLETONS
 from .vals import BM, Builtin, Cls, Fn, It, Mod, Star, SuperProxy, T, Tup, Unsupported
 
 SPEC_PRIMS = {
@@ -16,7 +16,7 @@ SPEC_PRIMS = {
     "is_tuple", "is_container", "nvals", "prog_len", "prog_at", "is_gen", "is_slice", "is_enum", "is_exc", "is_userfunc", "Node", "NodeList", "Ctx", "nkeys", "key_at", "val_at", "has_key",
     "get", "num", "seq", "pending", "implies", "iff", "old", "raised", "exc_is", "same", "slice_of", "int_of", "str_of",
     "codepoint", "char", "ucall", "regex_fullmatch", "regex_search", "iregexp_ok", "str_count", "str_rfind", "int_str",
-    "canonical", "is_hexdigit_code", "finditer_outcome", "slice_parts", "py_equal", "float_of", "truthy", "mk_list", "mk_tuple", "enum_ord", "func_id",
+    "canonical", "is_hexdigit_code", "finditer_outcome", "compile_outcome", "is_pynum", "is_pylist", "is_pyobject", "obj_eq", "slice_parts", "py_equal", "float_of", "truthy", "mk_list", "mk_tuple", "enum_ord", "func_id",
 }
 
 
@@ -344,6 +344,8 @@ class CallMixin(ExprMixin):
             return z3.BoolVal(True)
         if n in LISTLIKE:
             return self.is_kind(x, ["VNodeList"])
+        if n in SINGLETONS:
+            return self.is_kind(x, [SINGLETONS[n]])
         if isinstance(x, Rec):
             return z3.BoolVal(n in U.src.mro(x.cls))
         if not (isinstance(x, T) and x.kind == "V"):
@@ -547,6 +549,17 @@ class CallMixin(ExprMixin):
         if name == "ucall":
             f = self.uf("ucall", self.V, self.U.SeqV, self.V)
             return T("V", f(box(0), self.seq_term(a[1])))
+        if name == "is_pynum":
+            return B(self.is_kind(a[0], ["VInt", "VBool", "VFloat"]))
+        if name == "is_pylist":
+            return B(self.is_kind(a[0], ["VList", "VNodeList"]))
+        if name == "is_pyobject":
+            return B(z3.Not(self.is_kind(a[0], ["VNone", "VBool", "VInt", "VFloat", "VStr", "VList", "VDict", "VTuple", "VNothing", "VNodeList", "VEnum"])))
+        if name == "obj_eq":
+            # objects without __eq__ compare by identity, which the value model does not track: unconstrained
+            return B(self.uf("obj_eq", self.V, self.V, z3.BoolSort())(box(0), box(1)))
+        if name == "compile_outcome":
+            return T("V", self.uf("compile_outcome", self.V, self.V, self.V)(box(0), box(1)))
         if name == "finditer_outcome":
             return T("V", self.uf("finditer_outcome", self.V, self.V, self.V)(box(0), box(1)))
         if name == "func_id":
@@ -709,7 +722,7 @@ class CallMixin(ExprMixin):
         out = []
         covered = []
         # package classes defining `name`
-        defining = [c for c in list(U.obj_classes) + list(LISTLIKE) if name in src.classes[c].methods]
+        defining = [c for c in list(U.obj_classes) + list(LISTLIKE) + list(SINGLETONS) if name in src.classes[c].methods]
         roots = [c for c in defining if not any(d != c and d in src.mro(c) for d in defining)]
         for r in roots:
             cond = self.isinstance_term(recv, Cls(r))
